@@ -27,6 +27,7 @@ for name, spec in b['files'].items():
     if spec is None:
         continue
     path = name if not name.startswith('$TMPDIR/') else os.path.join(os.environ['TMPDIR'], name[8:])
+    path = os.path.expanduser(path)
     if os.path.dirname(path):
         os.makedirs(os.path.dirname(path), exist_ok=True)
     if spec['kind'] == 'text':
@@ -113,6 +114,10 @@ def make_case(rnd, wd, shape, tmpdir_tokens_with_one_iteration=True, dated_first
         names['o1'], names['o4'] = a, b
         files = {a: {'kind': 'text', 'text': text_of(rnd, rnd.randint(1, 3), token_pool=tokens)},
                  b: {'kind': 'text', 'text': text_of(rnd, rnd.randint(1, 3), allow_specific=False)}}
+    if 'o6' in shape:
+        # an output in the user's home directory, named home-relative (no shell expands the ~ for gentest)
+        names['o6'] = '~/results/summary.csv'
+        files[names['o6']] = {'kind': 'text', 'text': text_of(rnd, rnd.randint(1, 3), allow_specific=False)}
     if 'o5' in shape:
         # two outputs with the same base name in different directories (found by directory), different contents
         a, b = rnd.choice([('out/north/Report.txt', 'out/south/Report.txt'), ('out/a/data.csv', 'out/b/data.csv'),
@@ -177,6 +182,8 @@ def make_case(rnd, wd, shape, tmpdir_tokens_with_one_iteration=True, dated_first
         flags.append('--non-zero-exit')
         nonzero = True
     refs_mode = rnd.choice(['dir', 'named', 'glob']) if names and 'o3' not in names else 'dir'
+    if 'o6' in names:
+        refs_mode = 'named'
     if 'o5' in names:
         refs_mode = rnd.choice(['outdir', 'named'])
     refs = []
@@ -190,7 +197,13 @@ def make_case(rnd, wd, shape, tmpdir_tokens_with_one_iteration=True, dated_first
     # arguments the command ignores, but which are part of the command TEXT that gentest records in the script
     cmd_args = rnd.choice(['', '', '', " 'C:\\Users\\xavier\\notes.txt'", " '\\d+ \\N \\x'", ' "two words" --flag=1', " 'it is 100%% {ok}'",
                            " 'tab\\there' '\\u12'"])
-    return {'wd': wd, 'beh': beh, 'names': names, 'tokens': tokens, 'cmd_args': cmd_args, 'pre': pre, 'flags': flags, 'iterations': iterations, 'no_stdout': no_stdout,
+    # an earlier, unrelated generation in the same Python process (the gentest() API called twice), whose command leaves a
+    # file in the scratch directory
+    prelim = rnd.random() < 0.2
+    if prelim:
+        with open(os.path.join(wd, 'pre.py'), 'w') as f:
+            f.write("import os\nopen(os.path.join(os.environ['TMPDIR'], 'alpha.txt'), 'w').write('left by an earlier command\\n')\nprint('pre')\n")
+    return {'wd': wd, 'beh': beh, 'names': names, 'tokens': tokens, 'cmd_args': cmd_args, 'prelim': prelim, 'pre': pre, 'flags': flags, 'iterations': iterations, 'no_stdout': no_stdout,
             'no_stderr': no_stderr, 'nonzero': nonzero, 'refs': refs, 'refs_mode': refs_mode, 'script': script}
 
 
@@ -200,7 +213,15 @@ def run_gentest(case, timeout=180):
     os.makedirs(gtmp, exist_ok=True)
     env['TMPDIR'] = gtmp
     cmdline = '%s cmd.py%s' % (common.PY, case.get('cmd_args', ''))
-    argv = [common.PY, '-W', 'ignore', '-m', 'tdda.referencetest.gentest'] + case['flags'] + [cmdline, case['script']] + case['refs']
+    home = case['wd'] + '_home'
+    os.makedirs(home, exist_ok=True)
+    env['HOME'] = home
+    calls = [case['flags'] + [cmdline, case['script']] + case['refs']]
+    if case.get('prelim'):
+        calls.insert(0, ['-n', '2', '%s pre.py' % common.PY, 'test_first.py'])
+    driver = ('import sys, json\nfrom tdda.referencetest.gentest import gentest_wrapper\n'
+              'for a in json.loads(sys.argv[1]):\n    gentest_wrapper(a)\n')
+    argv = [common.PY, '-W', 'ignore', '-c', driver, json.dumps(calls)]
     p = subprocess.run(argv, cwd=case['wd'], env=env, stdout=subprocess.PIPE, stderr=subprocess.PIPE, text=True, timeout=timeout)
     return p.returncode, p.stdout, p.stderr
 
@@ -212,6 +233,7 @@ def run_script(case, timeout=180):
     """Runs the generated test script; returns {test name: 'pass'|'fail'|'error'} and raw output."""
     env = common.child_env({'HOME': os.environ.get('HOME', '/root')})
     env['TMPDIR'] = os.path.join(case['wd'] + '_tmp')
+    env['HOME'] = case['wd'] + '_home'
     env.pop('TMPDIR_SET_BY_GENTEST', None)
     p = subprocess.run([common.PY, '-W', 'ignore', 'test_job.py', '-v'], cwd=case['wd'], env=env, stdout=subprocess.PIPE,
                        stderr=subprocess.PIPE, text=True, timeout=timeout)
@@ -301,6 +323,8 @@ def script_test_map(case):
 def lookup(m, name, default=None):
     """Entry for an output named `name` (relative path, '$TMPDIR/x' or base name) in a map keyed as the script writes it."""
     key = name[8:] if name.startswith('$TMPDIR/') else name
+    if key.startswith('~'):
+        key = os.path.basename(key)
     if key in m:
         return m[key]
     b = os.path.basename(key)
